@@ -102,7 +102,7 @@ func main() {
 			for _, ch := range []string{"lang", "v1", "v2"} {
 				res[ch] = h.LabOut{O: dead, After: h.OptItem{I: h.Item{}}}
 			}
-			if c.Op == "Match" {
+			if c.Op == "Match" || c.Op == "MatchText" {
 				res["scan"] = h.LabOut{O: dead, After: h.OptItem{I: h.Item{}}}
 			}
 			l, _ := h.LabLine(c, res)
